@@ -1,5 +1,488 @@
+//! linfa-svm, linfa-trees, linfa-bayes.
+
 use crate::Case;
 use vengine::Obs;
-pub const NKINDS: u16 = 1;
-pub const REQUIRED: &[&str] = &[];
-pub fn check(_c: &Case, _obs: &mut Obs) {}
+
+pub const NKINDS: u16 = 6;
+pub const REQUIRED: &[&str] = &[
+    "Svm<bool>",
+    "Svm<Pr>",
+    "Svm<one-class>",
+    "Svm<regression>",
+    "DecisionTreeParams",
+    "DecisionTree",
+    "GaussianNb",
+    "MultinomialNb",
+];
+
+pub fn check(c: &Case, obs: &mut Obs) {
+    obs.class_if(c.f32, "f32");
+    obs.class_if(!c.f32, "f64");
+    if c.f32 {
+        impl_f32::run(c, obs)
+    } else {
+        impl_f64::run(c, obs)
+    }
+}
+
+/// Joint log-likelihood of one class of a serialised naive-Bayes model for one row (own arithmetic, f64).
+fn nb_jll(info: &serde_json::Value, gaussian: bool, row: &[f64]) -> Option<f64> {
+    let arr = |k: &str| -> Option<Vec<f64>> { info.get(k)?.get("data")?.as_array()?.iter().map(|v| v.as_f64()).collect() };
+    let prior = info.get("prior")?.as_f64()?;
+    if gaussian {
+        let (theta, sigma) = (arr("theta")?, arr("sigma")?);
+        if theta.len() != row.len() || sigma.len() != row.len() {
+            return None;
+        }
+        let mut s = prior.ln();
+        for j in 0..row.len() {
+            s += -0.5 * (2.0 * std::f64::consts::PI * sigma[j]).ln() - 0.5 * (row[j] - theta[j]).powi(2) / sigma[j];
+        }
+        Some(s)
+    } else {
+        let flp = arr("feature_log_prob")?;
+        if flp.len() != row.len() {
+            return None;
+        }
+        Some(prior.ln() + row.iter().zip(&flp).map(|(a, b)| a * b).sum::<f64>())
+    }
+}
+
+/// Are the two answers for this row tied (within `rel`) under the model's own class statistics?
+pub(crate) fn nb_tied<M: serde::Serialize>(model: &M, gaussian: bool, row: &[f64], a: usize, b: usize, rel: f64) -> bool {
+    let j = match serde_json::to_value(model) {
+        Ok(j) => j,
+        Err(_) => return false,
+    };
+    let ci = match j.get("class_info") {
+        Some(c) => c,
+        None => return false,
+    };
+    let (ja, jb) = match (ci.get(a.to_string()), ci.get(b.to_string())) {
+        (Some(x), Some(y)) => (nb_jll(x, gaussian, row), nb_jll(y, gaussian, row)),
+        _ => return false,
+    };
+    match (ja, jb) {
+        (Some(x), Some(y)) if x.is_finite() && y.is_finite() => (x - y).abs() <= rel * (1.0 + x.abs().max(y.abs())),
+        _ => false,
+    }
+}
+
+macro_rules! adapters {
+    ($modname:ident, $F:ty, $tie:expr) => {
+        mod $modname {
+            use crate::rt::*;
+            use crate::util::*;
+            use crate::Case;
+            use linfa::dataset::Pr;
+            use linfa::traits::{Fit, Predict};
+            use linfa::{Dataset, ParamGuard};
+            use linfa_bayes::{GaussianNb, MultinomialNb};
+            use linfa_svm::Svm;
+            use linfa_trees::{DecisionTree, SplitQuality, TreeNode};
+            use ndarray::{Array1, Array2};
+            use vengine::Obs;
+            type F = $F;
+            const TIE_REL: f64 = $tie;
+
+            pub fn run(c: &Case, obs: &mut Obs) {
+                let mut k = Knobs::new(&c.knobs);
+                match c.kind {
+                    0 => svm_class(c, obs, &mut k),
+                    1 => svm_other(c, obs, &mut k),
+                    2 => tree_params(c, obs, &mut k),
+                    3 => tree_fitted(c, obs, &mut k),
+                    4 => gaussian_nb(c, obs, &mut k),
+                    _ => multinomial_nb(c, obs, &mut k),
+                }
+            }
+
+            fn queries(c: &Case) -> Array2<F> {
+                mat(&with_fixed_queries(&c.q, ncols(c)))
+            }
+
+            macro_rules! kernel {
+                ($p:expr, $k:expr, $obs:expr) => {
+                    match $k.pick(3) {
+                        0 => {
+                            $obs.class("svm_linear_kernel");
+                            $p.linear_kernel()
+                        }
+                        1 => {
+                            $obs.class("svm_gaussian_kernel");
+                            $p.gaussian_kernel(F::of([4.0, 1.0, 16.0][$k.pick(3)]))
+                        }
+                        _ => {
+                            $obs.class("svm_polynomial_kernel");
+                            $p.polynomial_kernel(F::of([1.0, 0.0][$k.pick(2)]), F::of([2.0, 3.0][$k.pick(2)]))
+                        }
+                    }
+                };
+            }
+
+            /// Obligations common to every target kind of `Svm` (prediction is compared by the caller).
+            fn svm_common<T: PartialEq>(obs: &mut Obs, name: &str, fmt: Fmt, model: &Svm<F, T>, back: &Svm<F, T>, q: &Array2<F>) {
+                eq_check(obs, name, fmt, model, back);
+                must(obs, name, fmt, "alpha", same_slice(&model.alpha, &back.alpha));
+                must(obs, name, fmt, "rho", same(model.rho, back.rho));
+                must(obs, name, fmt, "nsupport", model.nsupport() == back.nsupport());
+                // Display prints exit reason, iteration count, objective and support-vector count
+                must(obs, name, fmt, "display", model.to_string() == back.to_string());
+                let want = observe(|| q.outer_iter().map(|r| model.weighted_sum(&r)).collect::<Vec<F>>());
+                same_behaviour(obs, name, fmt, "weighted_sum", &want, || q.outer_iter().map(|r| back.weighted_sum(&r)).collect::<Vec<F>>(), |a, b| same_slice(a, b));
+            }
+
+            fn svm_class(c: &Case, obs: &mut Obs, k: &mut Knobs) {
+                let x: Array2<F> = mat(&c.x);
+                let y: Array1<bool> = labels(c, 2).into_iter().map(|l| l == 1).collect();
+                let ds = Dataset::new(x, y);
+                let q = queries(c);
+                let nu = k.flag();
+                let c1 = F::of([1.0, 10.0, 0.5][k.pick(3)]);
+                let c2 = F::of([1.0, 0.25][k.pick(2)]);
+                let nuv = F::of([0.5, 0.25, 0.75][k.pick(3)]);
+                if k.flag() {
+                    const T: &str = "Svm<bool>";
+                    let p = Svm::<F, bool>::params().eps(F::of(1e-3)).shrinking(false);
+                    let p = if nu { p.nu_weight(nuv) } else { p.pos_neg_weights(c1, c2) };
+                    let p = kernel!(p, k, obs);
+                    let model = match vengine::guard(|| p.fit(&ds)) {
+                        Ok(Ok(m)) => m,
+                        _ => return obs.skip("fit_failed"),
+                    };
+                    obs.class(T);
+                    obs.class_if(nu, "svm_nu");
+                    obs.nontrivial();
+                    let want = observe(|| model.predict(&q));
+                    for (fmt, back) in roundtrip(obs, T, &model, STABLE) {
+                        svm_common(obs, T, fmt, &model, &back, &q);
+                        same_behaviour(obs, T, fmt, "predict", &want, || back.predict(&q), |a, b| a == b);
+                    }
+                } else {
+                    const T: &str = "Svm<Pr>";
+                    let p = Svm::<F, Pr>::params().eps(F::of(1e-3)).shrinking(false);
+                    let p = if nu { p.nu_weight(nuv) } else { p.pos_neg_weights(c1, c2) };
+                    let p = kernel!(p, k, obs);
+                    let model = match vengine::guard(|| p.fit(&ds)) {
+                        Ok(Ok(m)) => m,
+                        _ => return obs.skip("fit_failed"),
+                    };
+                    obs.class(T);
+                    obs.class_if(nu, "svm_nu");
+                    obs.nontrivial();
+                    let want = observe(|| -> Array1<Pr> { model.predict(&q) });
+                    for (fmt, back) in roundtrip(obs, T, &model, STABLE) {
+                        svm_common(obs, T, fmt, &model, &back, &q);
+                        same_behaviour(obs, T, fmt, "predict", &want, || back.predict(&q), |a, b| same_arr(a, b));
+                    }
+                }
+            }
+
+            fn svm_other(c: &Case, obs: &mut Obs, k: &mut Knobs) {
+                let x: Array2<F> = mat(&c.x);
+                let q = queries(c);
+                let nuv = F::of([0.5, 0.25, 0.75][k.pick(3)]);
+                if k.flag() {
+                    const T: &str = "Svm<one-class>";
+                    let ds = Dataset::new(x.clone(), Array1::from_elem(x.nrows(), ()));
+                    let p = Svm::<F, Pr>::params().eps(F::of(1e-3)).shrinking(false).nu_weight(nuv);
+                    let p = kernel!(p, k, obs);
+                    let model: Svm<F, bool> = match vengine::guard(|| p.fit(&ds)) {
+                        Ok(Ok(m)) => m,
+                        _ => return obs.skip("fit_failed"),
+                    };
+                    obs.class(T);
+                    obs.nontrivial();
+                    let want = observe(|| model.predict(&q));
+                    for (fmt, back) in roundtrip(obs, T, &model, STABLE) {
+                        svm_common(obs, T, fmt, &model, &back, &q);
+                        same_behaviour(obs, T, fmt, "predict", &want, || back.predict(&q), |a, b| a == b);
+                    }
+                } else {
+                    const T: &str = "Svm<regression>";
+                    let ds = Dataset::new(x, Array1::from(targets::<F>(c, 0)));
+                    let p = Svm::<F, F>::params().eps(F::of(1e-3)).shrinking(false);
+                    let p = if k.flag() {
+                        obs.class("svm_nu");
+                        p.nu_svr(nuv, Some(F::of([1.0, 10.0][k.pick(2)])))
+                    } else {
+                        p.c_svr(F::of([1.0, 10.0][k.pick(2)]), Some(F::of([0.1, 0.5][k.pick(2)])))
+                    };
+                    let p = kernel!(p, k, obs);
+                    let model = match vengine::guard(|| p.fit(&ds)) {
+                        Ok(Ok(m)) => m,
+                        _ => return obs.skip("fit_failed"),
+                    };
+                    obs.class(T);
+                    obs.nontrivial();
+                    let want = observe(|| model.predict(&q));
+                    for (fmt, back) in roundtrip(obs, T, &model, STABLE) {
+                        svm_common(obs, T, fmt, &model, &back, &q);
+                        same_behaviour(obs, T, fmt, "predict", &want, || back.predict(&q), |a, b| same_arr(a, b));
+                    }
+                }
+            }
+
+            // ---------------------------------------------------------------------------------
+            // decision trees
+
+            /// Pairwise distinct, irregular sample weights: class frequencies (weighted sums) then tie only by
+            /// coincidence, so the modal class of a node does not depend on HashMap order.
+            fn weights(n: usize) -> Array1<f32> {
+                Array1::from_shape_fn(n, |i| {
+                    let frac = ((i as f64 + 1.0) * 0.618_033_988_749_894_9).fract();
+                    (1.0 + frac * 0.5) as f32
+                })
+            }
+
+            fn same_node(a: &TreeNode<F, usize>, b: &TreeNode<F, usize>) -> bool {
+                let (sa, sb) = (a.split(), b.split());
+                if !(a.is_leaf() == b.is_leaf()
+                    && a.depth() == b.depth()
+                    && a.prediction() == b.prediction()
+                    && sa.0 == sb.0
+                    && same(sa.1, sb.1)
+                    && same(sa.2, sb.2)
+                    && a.feature_name() == b.feature_name())
+                {
+                    return false;
+                }
+                let (ca, cb) = (a.children(), b.children());
+                ca.len() == cb.len()
+                    && ca.iter().zip(cb.iter()).all(|(x, y)| match (x, y) {
+                        (None, None) => true,
+                        (Some(x), Some(y)) => same_node(x, y),
+                        _ => false,
+                    })
+            }
+
+            fn tree_dials(k: &mut Knobs, obs: &mut Obs, with_invalid: bool) -> linfa_trees::DecisionTreeParams<F, usize> {
+                let mid = if with_invalid && k.rare() {
+                    k.palette()
+                } else {
+                    [1e-5, 1e-3, 0.05][k.pick(3)]
+                };
+                let _ = obs;
+                DecisionTree::<F, usize>::params()
+                    .split_quality(if k.flag() { SplitQuality::Entropy } else { SplitQuality::Gini })
+                    .max_depth([None, Some(1), Some(2), Some(4)][k.pick(4)])
+                    .min_weight_split([2.0, 1.0, 4.0][k.pick(3)])
+                    .min_weight_leaf([1.0, 0.5, 2.0][k.pick(3)])
+                    .min_impurity_decrease(F::of(mid))
+            }
+
+            fn tree_params(c: &Case, obs: &mut Obs, k: &mut Knobs) {
+                const T: &str = "DecisionTreeParams";
+                let params = tree_dials(k, obs, true);
+                obs.class(T);
+                obs.nontrivial();
+                let want_verdict = verdict(params.check_ref());
+                obs.class_if(want_verdict.is_ok(), "params_valid");
+                obs.class_if(want_verdict.is_err(), "params_invalid");
+                // two classes only: impurity sums over a HashMap of two entries do not depend on its order
+                let n = c.x.len();
+                let ds = Dataset::new(mat::<F>(&c.x), Array1::from(labels(c, 2))).with_weights(weights(n));
+                let want_fit = fit_outcome(|| params.fit(&ds));
+                // fitting must be a function of (parameters, data) for the comparison to mean anything
+                let stable = want_fit == fit_outcome(|| params.fit(&ds));
+                obs.class_if(!stable, "fit_not_reproducible");
+                for (fmt, back) in roundtrip(obs, T, &params, STABLE) {
+                    eq_check(obs, T, fmt, &params, &back);
+                    must(obs, T, fmt, "check_ref-verdict", verdict(back.check_ref()) == want_verdict);
+                    if let (Ok(a), Ok(b)) = (params.check_ref(), back.check_ref()) {
+                        must(obs, T, fmt, "split_quality", a.split_quality() == b.split_quality());
+                        must(obs, T, fmt, "max_depth", a.max_depth() == b.max_depth());
+                        must(obs, T, fmt, "min_weight_split", same(a.min_weight_split(), b.min_weight_split()));
+                        must(obs, T, fmt, "min_weight_leaf", same(a.min_weight_leaf(), b.min_weight_leaf()));
+                        must(obs, T, fmt, "min_impurity_decrease", same(a.min_impurity_decrease(), b.min_impurity_decrease()));
+                    }
+                    if stable {
+                        same_refit(obs, T, fmt, &want_fit, fit_outcome(|| back.fit(&ds)));
+                    }
+                }
+                if let Ok(valid) = params.check_ref() {
+                    const V: &str = "DecisionTreeValidParams";
+                    obs.class(V);
+                    for (fmt, back) in roundtrip(obs, V, valid, STABLE) {
+                        eq_check(obs, V, fmt, valid, &back);
+                        if stable {
+                            same_refit(obs, V, fmt, &want_fit, fit_outcome(|| back.fit(&ds)));
+                        }
+                    }
+                }
+            }
+
+            fn tree_fitted(c: &Case, obs: &mut Obs, k: &mut Knobs) {
+                const T: &str = "DecisionTree";
+                let params = tree_dials(k, obs, false);
+                let nclass = 2 + k.pick(2);
+                let n = c.x.len();
+                let names: Vec<String> = (0..ncols(c)).map(|j| format!("col {j} \u{e9}")).collect();
+                let mut ds = Dataset::new(mat::<F>(&c.x), Array1::from(labels(c, nclass))).with_weights(weights(n));
+                if k.flag() {
+                    ds = ds.with_feature_names(names);
+                    obs.class("tree_with_feature_names");
+                }
+                let model = match vengine::guard(|| params.fit(&ds)) {
+                    Ok(Ok(m)) => m,
+                    _ => return obs.skip("fit_failed"),
+                };
+                obs.class(T);
+                obs.nontrivial();
+                obs.class_if(model.num_leaves() == 1, "tree_single_leaf");
+                obs.class_if(model.num_leaves() >= 3, "tree_three_or_more_leaves");
+                let q = queries(c);
+                let want = observe(|| model.predict(&q));
+                let want_train = observe(|| model.predict(ds.records()));
+                let sorted = |mut v: Vec<usize>| {
+                    v.sort_unstable();
+                    v
+                };
+                for (fmt, back) in roundtrip(obs, T, &model, STABLE) {
+                    eq_check(obs, T, fmt, &model, &back);
+                    must(obs, T, fmt, "nodes", same_node(model.root_node(), back.root_node()));
+                    must(obs, T, fmt, "features", sorted(model.features()) == sorted(back.features()));
+                    must(obs, T, fmt, "num_leaves", model.num_leaves() == back.num_leaves());
+                    must(obs, T, fmt, "max_depth", model.max_depth() == back.max_depth());
+                    let w = observe(|| (model.mean_impurity_decrease(), model.relative_impurity_decrease(), model.feature_importance()));
+                    same_behaviour(
+                        obs,
+                        T,
+                        fmt,
+                        "impurity-decrease",
+                        &w,
+                        || (back.mean_impurity_decrease(), back.relative_impurity_decrease(), back.feature_importance()),
+                        |a, b| same_slice(&a.0, &b.0) && same_slice(&a.1, &b.1) && same_slice(&a.2, &b.2),
+                    );
+                    let w = observe(|| model.export_to_tikz().to_string());
+                    same_behaviour(obs, T, fmt, "tikz", &w, || back.export_to_tikz().to_string(), |a, b| a == b);
+                    same_behaviour(obs, T, fmt, "predict", &want, || back.predict(&q), |a, b| a == b);
+                    same_behaviour(obs, T, fmt, "predict-train", &want_train, || back.predict(ds.records()), |a, b| a == b);
+                }
+                // a node is a serialisable type of its own (its PartialEq only looks at the feature index)
+                const N: &str = "TreeNode";
+                for (fmt, back) in roundtrip(obs, N, model.root_node(), STABLE) {
+                    eq_check(obs, N, fmt, model.root_node(), &back);
+                    must(obs, N, fmt, "nodes", same_node(model.root_node(), &back));
+                }
+            }
+
+            // ---------------------------------------------------------------------------------
+            // naive Bayes (HashMap-backed)
+
+            /// Predictions must agree except on rows where the two answers are tied under the model's own statistics.
+            fn nb_predictions<M: serde::Serialize>(obs: &mut Obs, name: &str, fmt: Fmt, model: &M, gaussian: bool, q: &Array2<F>, want: &Array1<usize>, got: &Array1<usize>) {
+                if want.len() != got.len() {
+                    return must(obs, name, fmt, "predict", false);
+                }
+                for (i, (a, b)) in want.iter().zip(got.iter()).enumerate() {
+                    if a != b {
+                        let row: Vec<f64> = q.row(i).iter().map(|v| v.f()).collect();
+                        if super::nb_tied(model, gaussian, &row, *a, *b, TIE_REL) {
+                            obs.class("nb_tie_follows_map_order");
+                        } else {
+                            must(obs, name, fmt, "predict", false);
+                        }
+                    }
+                }
+            }
+
+            fn gaussian_nb(c: &Case, obs: &mut Obs, k: &mut Knobs) {
+                const P: &str = "GaussianNbValidParams";
+                const T: &str = "GaussianNb";
+                let nclass = 2 + k.pick(2);
+                let valid = match GaussianNb::<F, usize>::params().var_smoothing(F::of([1e-9, 1e-3, 0.0, 1.0][k.pick(4)])).check() {
+                    Ok(v) => v,
+                    Err(_) => return obs.skip("params_invalid"),
+                };
+                let ds = Dataset::new(mat::<F>(&c.x), Array1::from(labels(c, nclass)));
+                obs.class(P);
+                let want_model = vengine::guard(|| valid.fit(&ds));
+                for (fmt, back) in roundtrip(obs, P, &valid, STABLE) {
+                    eq_check(obs, P, fmt, &valid, &back);
+                    must(obs, P, fmt, "var_smoothing", same(valid.var_smoothing(), back.var_smoothing()));
+                    // refit: compared by content (HashMap-backed model)
+                    if let Ok(Ok(w)) = &want_model {
+                        match vengine::guard(|| back.fit(&ds)) {
+                            Ok(Ok(g)) => {
+                                #[allow(clippy::eq_op)]
+                                if w == w {
+                                    obs.class("refit_compared_models");
+                                    must(obs, P, fmt, "refit", *w == g);
+                                }
+                            }
+                            _ => must(obs, P, fmt, "refit", false),
+                        }
+                    }
+                }
+                let model = match want_model {
+                    Ok(Ok(m)) => m,
+                    _ => return obs.class("no_fitted_instance"),
+                };
+                obs.class(T);
+                obs.nontrivial();
+                let q = queries(c);
+                let want = observe(|| model.predict(&q));
+                for (fmt, back) in roundtrip(obs, T, &model, HASHED) {
+                    eq_check(obs, T, fmt, &model, &back);
+                    match (&want, vengine::guard(|| back.predict(&q))) {
+                        (Ok(w), Ok(g)) => nb_predictions(obs, T, fmt, &model, true, &q, w, &g),
+                        (Ok(_), Err(p)) => obs.fail(format!("{T}:predict-panics:{}", fmt.name()), p),
+                        (Err(_), _) => obs.class("orig_behaviour_panics"),
+                    }
+                }
+            }
+
+            fn multinomial_nb(c: &Case, obs: &mut Obs, k: &mut Knobs) {
+                const P: &str = "MultinomialNbValidParams";
+                const T: &str = "MultinomialNb";
+                let nclass = 2 + k.pick(2);
+                let valid = match MultinomialNb::<F, usize>::params().alpha(F::of([1.0, 0.5, 0.0, 2.0][k.pick(4)])).check() {
+                    Ok(v) => v,
+                    Err(_) => return obs.skip("params_invalid"),
+                };
+                // counts: non-negative
+                let counts: Vec<Vec<f64>> = c.x.iter().map(|r| r.iter().map(|v| (v.abs() * 2.0).round()).collect()).collect();
+                let ds = Dataset::new(mat::<F>(&counts), Array1::from(labels(c, nclass)));
+                obs.class(P);
+                let want_model = vengine::guard(|| valid.fit(&ds));
+                for (fmt, back) in roundtrip(obs, P, &valid, STABLE) {
+                    eq_check(obs, P, fmt, &valid, &back);
+                    must(obs, P, fmt, "alpha", same(valid.alpha(), back.alpha()));
+                    if let Ok(Ok(w)) = &want_model {
+                        match vengine::guard(|| back.fit(&ds)) {
+                            Ok(Ok(g)) => {
+                                #[allow(clippy::eq_op)]
+                                if w == w {
+                                    obs.class("refit_compared_models");
+                                    must(obs, P, fmt, "refit", *w == g);
+                                }
+                            }
+                            _ => must(obs, P, fmt, "refit", false),
+                        }
+                    }
+                }
+                let model = match want_model {
+                    Ok(Ok(m)) => m,
+                    _ => return obs.class("no_fitted_instance"),
+                };
+                obs.class(T);
+                obs.nontrivial();
+                let qc: Vec<Vec<f64>> = with_fixed_queries(&c.q, ncols(c)).iter().map(|r| r.iter().map(|v| (v.abs() * 2.0).round()).collect()).collect();
+                let q: Array2<F> = mat(&qc);
+                let want = observe(|| model.predict(&q));
+                for (fmt, back) in roundtrip(obs, T, &model, HASHED) {
+                    eq_check(obs, T, fmt, &model, &back);
+                    match (&want, vengine::guard(|| back.predict(&q))) {
+                        (Ok(w), Ok(g)) => nb_predictions(obs, T, fmt, &model, false, &q, w, &g),
+                        (Ok(_), Err(p)) => obs.fail(format!("{T}:predict-panics:{}", fmt.name()), p),
+                        (Err(_), _) => obs.class("orig_behaviour_panics"),
+                    }
+                }
+            }
+        }
+    };
+}
+
+adapters!(impl_f32, f32, 1e-4);
+adapters!(impl_f64, f64, 1e-9);
